@@ -388,7 +388,7 @@ func classCategory(class string) string {
 	switch {
 	case strings.HasPrefix(class, "token-"), strings.HasPrefix(class, "tokens-"), strings.HasPrefix(class, "top-level-statements"), strings.HasPrefix(class, "adjacent-tokens"):
 		return "token"
-	case strings.HasPrefix(class, "comment-"), strings.Contains(class, "rewritten"):
+	case strings.HasPrefix(class, "comment-"), strings.Contains(class, "rewritten"), strings.HasPrefix(class, "line-comment-swallows"):
 		return "comment"
 	case strings.HasPrefix(class, "final-newline"), strings.HasPrefix(class, "eof-"):
 		return "eof"
@@ -504,11 +504,16 @@ func reorderClass(A, B tokView) string {
 // of want followed by text that lexes to at least one significant token or
 // opens a block comment, i.e. the printer put live text on the same line
 // behind a line comment.
-func commentSwallows(want, got string) bool {
+func commentSwallows(want, got string) bool { return swallowLevel(want, got) == 2 }
+
+// swallowLevel: 0 = no // comment of got grew; 1 = some // comment of got is a
+// // comment of want followed only by further comment text (comments merged
+// onto one line); 2 = followed by live text (tokens or a block-comment opener).
+func swallowLevel(want, got string) int {
 	A, okA := viewOf(want)
 	B, okB := viewOf(got)
 	if !okA || !okB {
-		return false
+		return 0
 	}
 	orig := map[string]bool{}
 	var origList []string
@@ -527,7 +532,8 @@ func commentSwallows(want, got string) bool {
 		collect(t.Lead)
 	}
 	collect(A.Trail)
-	check := func(items []gapItem) bool {
+	level := 0
+	check := func(items []gapItem) {
 		for _, it := range items {
 			if !it.Comment || !strings.HasPrefix(it.Text, "//") {
 				continue
@@ -538,7 +544,7 @@ func commentSwallows(want, got string) bool {
 			}
 			best := ""
 			for _, o := range origList {
-				if len(o) > len(best) && strings.HasPrefix(t, o) {
+				if len(o) > len(best) && len(o) < len(t) && strings.HasPrefix(t, o) {
 					best = o
 				}
 			}
@@ -549,20 +555,26 @@ func commentSwallows(want, got string) bool {
 			// A block-comment opener behind a // comment is dead text: the rest of
 			// that block comment leaks out as tokens on the following lines.
 			if strings.Contains(rest, "/*") {
-				return true
+				level = 2
+				return
 			}
 			if v, ok := viewOf(rest); ok && len(v.Toks) > 0 {
-				return true
+				level = 2
+				return
+			}
+			if strings.TrimSpace(rest) != "" && level < 1 {
+				level = 1
 			}
 		}
-		return false
 	}
 	for _, t := range B.Toks {
-		if check(t.Lead) {
-			return true
+		check(t.Lead)
+		if level == 2 {
+			return 2
 		}
 	}
-	return check(B.Trail)
+	check(B.Trail)
+	return level
 }
 
 // foldCommentMoves replaces the per-gap comment classes (a comment missing
@@ -632,6 +644,9 @@ func foldCommentMoves(ds []diffClass, want, got string) []diffClass {
 	}
 	det := map[string]any{"folded_classes": folded, "first_detail": first}
 	switch {
+	case lost != "" && swallowLevel(want, got) >= 1:
+		det["a_lost_comment"] = lost
+		out = append(out, diffClass{"line-comment-swallows-the-comment-that-follows-it", det})
 	case lost != "":
 		det["a_lost_comment"] = lost
 		out = append(out, diffClass{"comment-lost", det})
